@@ -201,10 +201,10 @@ using vec_it = std::vector<int>::const_iterator;
 H(h_cyclic_step_ptr, cyclic_step<int const *>()) H(h_cyclic_step_vec, cyclic_step<vec_it>())
 H(h_cyclic_advance_ptr, cyclic_advance<int const *>()) H(h_cyclic_advance_vec, cyclic_advance<vec_it>())
 H(h_cyclic_deref_ptr, cyclic_deref<int const *>()) H(h_cyclic_deref_vec, cyclic_deref<vec_it>())
-//@harness h_cyclic_step_{I} for I in ptr,vec param L=1..6 tier=quick loop=16
-//@harness h_cyclic_advance_ptr param L=1..6 param part=0..4 tier=quick loop=16
-//@harness h_cyclic_advance_vec param L=1,3,6 param part=0..4 tier=quick loop=16
-//@harness h_cyclic_advance_vec param L=2,4,5 param part=0..4 tier=thorough loop=16
-//@harness h_cyclic_deref_{I} for I in ptr,vec param L=1..6 tier=quick loop=16
+//@harness h_cyclic_step_{I} for I in ptr,vec param L=1..6 tier=quick loop=16 hang_s=60
+//@harness h_cyclic_advance_ptr param L=1..6 param part=0..4 tier=quick loop=16 hang_s=60
+//@harness h_cyclic_advance_vec param L=1,3,6 param part=0..4 tier=quick loop=16 hang_s=60
+//@harness h_cyclic_advance_vec param L=2,4,5 param part=0..4 tier=thorough loop=16 hang_s=60
+//@harness h_cyclic_deref_{I} for I in ptr,vec param L=1..6 tier=quick loop=16 hang_s=60
 H(h_cyclic_loop, cyclic_loop())
-//@harness h_cyclic_loop param L=1..6 tier=quick loop=16
+//@harness h_cyclic_loop param L=1..6 tier=quick loop=16 hang_s=60
